@@ -60,6 +60,10 @@ func genC20Op(t *rapid.T, s Setup) Op {
 	case "removepod", "podresource":
 		op.Name = rapid.SampledFrom(s.Pods).Draw(t, "pod")
 	}
+	// fault paths take locks too (rollbacks): a third of the operations run with one injected failure
+	if vt.Chance(t, "withFault", 35) {
+		op.Fault = genFault(t, op.Kind, s)
+	}
 	return op
 }
 
@@ -148,7 +152,9 @@ func runC20(x *vt.Ctx, c LockCase) *vt.Finding {
 	}
 	defer w.Close()
 	for _, op := range c.Prep {
-		runOp(w, op)
+		if out := runOp(w, op); !out.Closed {
+			return vt.Failf("op="+op.Kind+":stream-not-closed fault=nofault", "fault-free %s of the prefix: result stream did not close: %s", op.Kind, jsonStr(op))
+		}
 		settle(w)
 	}
 	for i, op := range c.Ops {
@@ -167,6 +173,9 @@ func runC20(x *vt.Ctx, c LockCase) *vt.Finding {
 			x.NonTrivial()
 			x.Label("held>=2 op=%s", op.Kind)
 		}
+		if op.Fault != nil && w.IC.FaultFired() {
+			x.Label("fault-fired op=%s", op.Kind)
+		}
 		if key != "" {
 			return vt.Failf("op="+op.Kind+":"+key, "op %d %s: %s (outcome %s)\n%s", i, jsonStr(op), msg, jsonStr(out), histStr(h))
 		}
@@ -174,6 +183,6 @@ func runC20(x *vt.Ctx, c LockCase) *vt.Finding {
 	return nil
 }
 
-var propC20 = vt.Prop[LockCase]{ID: "C20", Test: "TestC20", Gen: genC20, Run: runC20}
+var propC20 = vt.Prop[LockCase]{ID: "C20", Test: "TestC20", Gen: genC20, Run: runC20, Retry: timeoutFinding}
 
 func TestC20(t *testing.T) { topT = t; propC20.Check(t) }
